@@ -24,7 +24,12 @@ try:
         res["error"] = out
     else:
         rc, out = run("go build ./...", cwd=wt); res["build"] = rc == 0
-        rc, out = run("go test -count=1 ./... 2>&1 | tail -15", cwd=wt); res["suite_passes_with_change"] = ("FAIL" not in out) and rc == 0; res["suite_tail"] = out[-600:]
+        rc, out = run("go test -count=1 ./... 2>&1 | grep -E '^(--- FAIL|FAIL|ok|panic)'", cwd=wt)
+        if "FAIL" in out or "panic" in out:
+            res["suite_first_run"] = out[-600:]
+            # timing-sensitive node tests can flake under load: one retry
+            rc, out = run("go test -count=1 ./... 2>&1 | grep -E '^(--- FAIL|FAIL|ok|panic)'", cwd=wt)
+        res["suite_passes_with_change"] = ("FAIL" not in out) and ("panic" not in out) and "ok" in out; res["suite_tail"] = out[-600:]
         # checks against the changed tree
         fired = {}
         claimed = [c["property_id"] for c in json.load(open(os.path.join(root, "MANIFEST.json")))["checks"]]
